@@ -15,7 +15,7 @@ MANIFEST = dict(
          "silence when only foreign bits change; over any history of watch/unwatch/patch the observer list never holds duplicates and every call "
          "carries old != new (induction). Tie: translator for the intersection filter + differential correspondence of both real structure classes "
          "(GeckoStructure, GeckoAsyncStructure) with recording observers against the model driver."
-         ' Since session 3: histories include bound-method observers (equal, not identical), wholesale loads (set_status_block) followed by patches, and updates that flip the temperature unit under watched temperature items. State inventory (notification_state_inventory): status_block_changed and the value decoders write no attribute; both structures write only the block. Observers that change the registration list from inside their callback (unwatch themselves or others, unwatch_all, watch): dispatch model Model/ObserverDispatch.lean, theorems C03.Reentrant.*, real structures of both classes.',
+         ' Since session 3: histories include bound-method observers (equal, not identical), wholesale loads (set_status_block) followed by patches, and updates that flip the temperature unit under watched temperature items. State inventory (notification_state_inventory): status_block_changed and the value decoders write no attribute; both structures write only the block. Observers that change the registration list from inside their callback (unwatch themselves or others, unwatch_all, watch): dispatch model Model/ObserverDispatch.lean, theorems C03.Reentrant.*, real structures of both classes. Session 5: notification_walk_keeps_no_state (Observable._on_change / watch / unwatch assign nothing); the smallest change of a stored number (one or two steps, whole field / low byte / window), which a presentation coarser than the stored reading would swallow.',
     note="Trusted: Lean kernel; translator; correspondence harness. Temperature items: the model compares stored words, the code compares values converted "
          "with the current unit (equivalent; the conversion itself is C14). An observer that raises aborts the remaining notifications (Python semantics) - excluded. "
          "Patches running past byte 1023 are outside the hypotheses (the real code would grow the block).",
@@ -136,6 +136,14 @@ def gen_ops(rng, items, n_ops):
             # one update that covers the unit setting AND the temperature items: the unit flips, the readings stay (or one changes)
             ops.append(("unitflip", units[0]["key"], rng.choice(temps)["key"] if rng.random() < 0.4 else None, "unitflip"))
             continue
+        if rng.random() < 0.12:
+            # the smallest change a stored number can make: one step up or down (a temperature moves by 1/18 degree C per step,
+            # so a presentation that is coarser than the stored reading would go silent here), sent as the whole field,
+            # as its low byte only, or inside a window refresh
+            nums = [x for x in watched if x["kind"] in ("temp", "word", "byte") and x["bitpos"] is None]
+            if nums:
+                ops.append(("step", rng.choice(nums)["key"], rng.choice([1, -1, 1, 2]), rng.choice(["field", "low", "window"]), "step"))
+                continue
         if r < 0.07:
             ops.append(("unwatch", it["key"], rng.randrange(3)))
         elif r < 0.10:
@@ -384,6 +392,20 @@ def run(ctx):
                 off, seg, cls = op[1], block[op[1]:op[1] + op[2]], op[3]
             elif kind == "flip":
                 off, seg, cls = op[1], bytes([block[op[1]] ^ (1 << op[2])]), op[3]
+            elif kind == "step":
+                t_ = items[op[1]]
+                bits_ = 8 * t_["len"]
+                w_ = (int.from_bytes(block[t_["pos"]:t_["pos"] + t_["len"]], "big") + op[2]) % (1 << bits_)
+                fb_ = w_.to_bytes(t_["len"], "big")
+                if op[3] == "low":
+                    off, seg = t_["pos"] + t_["len"] - 1, fb_[-1:]
+                elif op[3] == "window":
+                    o_ = max(0, t_["pos"] - 7)
+                    e_ = min(1024, t_["pos"] + t_["len"] + 5)
+                    off, seg = o_, block[o_:t_["pos"]] + fb_ + block[t_["pos"] + t_["len"]:e_]
+                else:
+                    off, seg = t_["pos"], fb_
+                cls = op[4]
             elif kind == "unitflip":
                 u = items[op[1]]
                 nb_ = bytearray(block)
@@ -482,7 +504,8 @@ def run(ctx):
     ctx.cov["items_whose_value_changed_at_least_once"] = len(touched_items)
     ctx.cov["distinct_nontrivial"] = len(nontrivial)
     ctx.cov["rule"] = ("seeded cfg/log pairs of one platform, both structure classes, random initial block, ops = watch (incl. duplicates) / unwatch (incl. absent) / "
-                       "unwatch_all / patches of classes field, half (one byte of a 2-byte item), identical, bitflip, straddle, adjacent, empty, random, refresh. "
+                       "unwatch_all / patches of classes field, half (one byte of a 2-byte item), identical, bitflip, straddle, adjacent, empty, random, refresh, "
+                       "step (a stored number moves by one or two: whole field / low byte / window). "
                        "a case = one update; non-trivial = at least one observer call expected; distinct by (patch class, segment length, kinds of items notified)")
     ctx.assumptions += ["observers do not raise", "temperature payloads are compared as stored words (conversion is C14)"]
 
